@@ -24,5 +24,4 @@ package tcpproxy
 //@ contract (*Server).forward
 //@   serves C07
 //@   requires[conns] conn != nil && upstream != nil
-//@   requires[fresh-step] !spawned("(*Server).forward$1") && !spawned("(*Server).forward$2")
 //@   ensures[both-directions] spawned("(*Server).forward$1") && spawned("(*Server).forward$2")
